@@ -624,15 +624,31 @@ func (e *Explorer) runBlock(b *ssa.BasicBlock, pred int, s *pstate, start int) {
 			} else {
 				delete(s.allocs, in)
 			}
-		case *ssa.FieldAddr, *ssa.IndexAddr:
+		case *ssa.IndexAddr:
+			// addresses are resolved at their use; the bounds obligation is recorded here
+			var base *T
+			if _, ok := in.X.Type().Underlying().(*types.Pointer); ok {
+				base = e.lvalue(s, in.X)
+			} else {
+				base = e.val(s, in.X)
+			}
+			s.events = append(s.events, Event{Kind: "index", Instr: in, Pos: in.Pos(), Args: []*T{base, e.val(s, in.Index)}, Block: b.Index})
+		case *ssa.FieldAddr:
 			// addresses are resolved at their use
 		case *ssa.Field:
 			st := in.X.Type().Underlying().(*types.Struct)
 			s.regs[in] = mksel(e.val(s, in.X), st.Field(in.Field).Name(), in.Type())
 		case *ssa.Index:
 			s.regs[in] = &T{Op: "elem", A: []*T{e.val(s, in.X), e.val(s, in.Index)}, Ty: in.Type()}
+			s.events = append(s.events, Event{Kind: "index", Instr: in, Pos: in.Pos(), Args: []*T{e.val(s, in.X), e.val(s, in.Index)}, Block: b.Index})
 		case *ssa.Lookup:
-			s.regs[in] = &T{Op: "lookup", A: []*T{e.val(s, in.X), e.val(s, in.Index)}, E: 1 + s.verAll*1000 + s.ver["[]"], Ty: in.Type()}
+			if _, isMap := in.X.Type().Underlying().(*types.Map); isMap {
+				s.regs[in] = &T{Op: "lookup", A: []*T{e.val(s, in.X), e.val(s, in.Index)}, E: 1 + s.verAll*1000 + s.ver["[]"], Ty: in.Type()}
+			} else {
+				// string indexing
+				s.regs[in] = &T{Op: "elem", A: []*T{e.val(s, in.X), e.val(s, in.Index)}, Ty: in.Type()}
+				s.events = append(s.events, Event{Kind: "index", Instr: in, Pos: in.Pos(), Args: []*T{e.val(s, in.X), e.val(s, in.Index)}, Block: b.Index})
+			}
 		case *ssa.Convert:
 			s.regs[in] = &T{Op: "conv", S: typeName(in.Type()), A: []*T{e.val(s, in.X)}, Ty: in.Type()}
 		case *ssa.ChangeType:
@@ -662,6 +678,7 @@ func (e *Explorer) runBlock(b *ssa.BasicBlock, pred int, s *pstate, start int) {
 				}
 			}
 			s.regs[in] = &T{Op: "slice", A: args, Ty: in.Type()}
+			s.events = append(s.events, Event{Kind: "slice", Instr: in, Pos: in.Pos(), Args: args, Block: b.Index})
 		case *ssa.Extract:
 			s.regs[in] = &T{Op: "ext", C: int64(in.Index) + 1, A: []*T{e.val(s, in.Tuple)}, Ty: in.Type()}
 		case *ssa.TypeAssert:
